@@ -10,9 +10,11 @@ c) delta refresher task: {watermark.enabled() == false edge, Some edge of Waterm
 e) the watermark that de-duplicates the delta against the stored frames is read from the store itself (MaterializedSink::high_water_mark on the sink opened for this SHOW), both for the
    WatermarkDeduplicator and for DeltaRefresher::initial_high_water — not from the catalog entry, which lags behind when a previous SHOW appended frames but did not persist its outcome.
 d) materialisation pruning strictness: a zone / segment is skipped only under `timestamp_max < high_water` (strict) or `created_at <= created_at`.
+(f) the delta query always carries the materialisation's watermark: in ShowExecutionPipeline::run the metadata entries "materialization_high_water_ts" and "materialization_high_water_event_id" are
+inserted on every path that reaches build_delta_command (without them the zone selectors fall back to pruning by creation time and drop a zone flushed in the same second as the REMEMBER).
 """
-FLOOR = 6
-REQUIRED = ["C14.a", "C14.b", "C14.c", "C14.d1", "C14.d2", "C14.e"]
+FLOOR = 7
+REQUIRED = ["C14.a", "C14.b", "C14.c", "C14.d1", "C14.d2", "C14.e", "C14.f"]
 
 
 def run(ctx):
@@ -163,3 +165,21 @@ def run(ctx):
         # the sink whose watermark is read is the one opened on entry.storage_path
         return bad
     ctx.run("C14.e", "K7 PROV", "DeltaRefresher::new", "the de-duplication watermark reflects what the store really holds", e)
+
+    def f_(inst):
+        b = F.fn("ShowExecutionPipeline::run")
+        bd = one(b, r"ShowExecutionPipeline.*::build_delta_command$")
+        ins = [c_ for c_ in b.find_calls(r"HashMap.*::insert$")]
+        by_key = {}
+        for c_ in ins:
+            for kk in str_consts(b, c_.args[1], depth=3):
+                by_key.setdefault(kk, []).append(c_)
+        bad = []
+        for key in ("materialization_high_water_ts", "materialization_high_water_event_id"):
+            cs = by_key.get(key) or []
+            if not cs:
+                raise AnchorMissing("metadata.insert(%r) in ShowExecutionPipeline::run" % key)
+            inst.sites.append("%s @ %s" % (key, [sp(b, c_.bb) for c_ in cs]))
+            bad += must_cross(b, bd.bb, cut_blocks=[c_.bb for c_ in cs], key="watermark-not-sent:%s" % key, detail="the delta query can be built without %s: the zone selectors then prune by creation time" % key)
+        return bad
+    ctx.run("C14.f", "K2 CUT", "ShowExecutionPipeline::run", "the delta query always carries the watermark", f_)
